@@ -9,6 +9,7 @@ import (
 
 func (rt *runtime) cmplEvaluateNodeStatement(node nodeStatement) Value {
 	verifStep(rt)
+	rt.halting = false // evaluation goes on: whatever panicked before has been dealt with
 	// Allow interpreter interruption
 	// If the Interrupt channel is nil, then
 	// we avoid runtime.Gosched() overhead (if any)
@@ -21,7 +22,7 @@ func (rt *runtime) cmplEvaluateNodeStatement(node nodeStatement) Value {
 			// this statement are not for that script to take.
 			labels := rt.labels
 			rt.labels = nil
-			value()
+			rt.interrupt(value)
 			rt.labels = labels
 		default:
 		}
@@ -320,7 +321,7 @@ resultBreak:
 			goruntime.Gosched()
 			select {
 			case value := <-rt.otto.Interrupt:
-				value()
+				rt.interrupt(value)
 			default:
 			}
 		}
